@@ -104,8 +104,10 @@ def run(tier, seed):
     sp = strprogs.programs()
     for i, p in enumerate(sp):
         for j, st in enumerate(strprogs.STORAGE):
+            if p.get("storage_only") is not None and st not in p["storage_only"]:
+                continue
             for k, lv in enumerate(strprogs.LEVELS):
-                if tier == "quick" and (i + j + k + seed) % 3 != 0:
+                if tier == "quick" and (i + j + k + seed) % 3 != 0 and p.get("storage_only") is None:
                     continue
                 zl = ["-fzero-len-input-support"] if (i + 2 * j + k) % 4 == 0 else []      # empty chunks at the end of exactly sized buffers
                 items.append(dict(label=p["label"], src=p["src"], argv=st + lv + zl, alphabet=p["alphabet"], sentinels=p["sentinels"], L=L))
